@@ -1,5 +1,5 @@
 """C01 — table views are re-iterable and their iterators are mutually independent."""
-import itertools, gc
+import os, itertools, gc
 from .. import lean, proto, gen, util
 from . import c20
 
@@ -150,6 +150,25 @@ def run(ctx):
         configs.append(('fromdicts(generator,sample)', r, (lambda T=T: etl.fromdicts((dict(zip(T[0], row)) for row in T[1:]), sample=1)), None))
         configs.append(('randomtable', r, (lambda r=r: etl.randomtable(2, r, seed=42)), None))
         configs.append(('dummytable', r, (lambda r=r: etl.dummytable(r, seed=42)), None))
+        # field functions of dummytable that draw from the module-level generator in ways petl cannot look into
+        import random as _random, functools as _functools, sqlite3 as _sqlite3
+        def _draw():
+            return _random.randint(0, 10 ** 6)
+        configs.append(('dummytable(opaque fields)', r, (lambda r=r: etl.dummytable(r, fields=[('a', lambda: _random.randint(0, 10 ** 6)), ('b', _draw),
+                                                                                              ('c', _functools.partial(_draw))], seed=42)), None))
+        configs.append(('dummytable(mixed fields)', r, (lambda r=r: etl.dummytable(r, fields=[('a', _functools.partial(_random.randint, 0, 99)), ('b', _draw)], seed=7)), None))
+        # database extracts: every iterator has its own cursor
+        dbp = os.path.join(tmpd, 'c01_%d.sqlite' % r)
+        if not os.path.exists(dbp):
+            _c = _sqlite3.connect(dbp)
+            _c.execute('CREATE TABLE t (k, v)')
+            _c.executemany('INSERT INTO t VALUES (?, ?)', [tuple(row) for row in T[1:]])
+            _c.commit()
+            _c.close()
+        _conn = _sqlite3.connect(dbp)
+        configs.append(('fromdb(filename)', r, (lambda dbp=dbp: etl.fromdb(dbp, 'SELECT * FROM t ORDER BY rowid')), None))
+        configs.append(('fromdb(connection)', r, (lambda _conn=_conn: etl.fromdb(_conn, 'SELECT * FROM t ORDER BY rowid')), None))
+        configs.append(('fromdb(cursor factory)', r, (lambda _conn=_conn: etl.fromdb(lambda: _conn.cursor(), 'SELECT * FROM t ORDER BY rowid')), None))
         configs.append(('join(cache)', r, (lambda T=T: etl.join(T, R, key='k', buffersize=2, tempdir=tmpd)), None))
         configs.append(('complement', r, (lambda T=T: etl.complement(T, [['k', 'v'], [0, 'r0']], buffersize=1, tempdir=tmpd)), None))
         configs.append(('distinct', r, (lambda T=T: etl.distinct(T, 'k')), None))
